@@ -223,7 +223,7 @@ def _session_generate(ck):
     import concurrent.futures as cf
 
     maxlen = ck.q(5, 6)
-    n_sim = ck.q(150, 3000)
+    n_sim = ck.q(100, 3000)
     depth = ck.q(9, 12)
 
     def gen(kind):
@@ -231,14 +231,19 @@ def _session_generate(ck):
             cfg = open(ck.spec + "/MC_C12_session_trans.cfg").read().replace("MaxLen = 5", f"MaxLen = {maxlen}")
             open(ck.spec + "/MC_C12_session_run.cfg", "w").write(cfg)
             return ck.tlc("MC_C12_session", "MC_C12_session_run", workers=1, label=f"[session] exhaustive to {maxlen} calls (3 fixed + {maxlen - 3} free), VIEW hides history, transition cover export", required_actions=["SNext"], timeout=3000)
+        if kind == "trans2":
+            # an old and a new quantity under one spelling (5 fixed calls), then calls on quantities and string reads only
+            cfg = open(ck.spec + "/MC_C12_session_trans.cfg").read().replace("MaxLen = 5", f"MaxLen = {maxlen + 2}").replace("PreKind = 1", "PreKind = 2")
+            open(ck.spec + "/MC_C12_session_run2.cfg", "w").write(cfg)
+            return ck.tlc("MC_C12_session", "MC_C12_session_run2", workers=1, label=f"[session] old+new quantity under one spelling: exhaustive to {maxlen + 2} calls (5 fixed + {maxlen - 3} free, no edits), transition cover export", required_actions=["SNext"], timeout=3000)
         cfg = open(ck.spec + "/MC_C12_session_sim.cfg").read().replace("MaxLen = 12", f"MaxLen = {depth + 3}").replace("ExportLen = 9", f"ExportLen = {depth}")
         open(ck.spec + "/MC_C12_session_simrun.cfg", "w").write(cfg)
         return ck.tlc("MC_C12_session", "MC_C12_session_simrun", workers=1, simulate=n_sim, depth=depth + 1, label=f"[session] simulation depth={depth}", timeout=1800)
 
-    with cf.ThreadPoolExecutor(2) as ex:
-        rt, rs = ex.map(gen, ["trans", "sim"])
-    hists = rt.by_tag("HIST")
-    if len(hists) < 1000:
+    with cf.ThreadPoolExecutor(3) as ex:
+        rt, rt2, rs = ex.map(gen, ["trans", "trans2", "sim"])
+    hists = rt.by_tag("HIST") + rt2.by_tag("HIST")
+    if len(rt.by_tag("HIST")) < 1000 or len(rt2.by_tag("HIST")) < 500:
         raise MachineryFailure("session: too few histories exported")
     sims = rs.by_tag("HIST")
     rnd = random.Random(ck.seed)
@@ -257,7 +262,7 @@ def _session_nontrivial(c):
     """an object or a memoised string exists before an edit of a symbol it mentions, and something is asked afterwards"""
     seen = False
     edited = False
-    for it in c["ev"][3:]:
+    for it in c["ev"][2:]:
         op = it["e"]["op"]
         if op in _SESSION_EDITS:
             edited = True
